@@ -50,6 +50,14 @@ CHECKS = {
    "runtime monitor: per-subscriber event logs checked for exactly-once / order / completeness against logical-clock-stamped emissions; missing events decided by quiescence detector; raw registerEvent/unregisterEvent connection with FIFO barrier; Go race detector",
    "Generated SubscribeTick/SubscribeOther subscribers on the same proxy, same connection and other connections, one emitter, PRNG interleavings incl. concurrent subscribe on one proxy with an emission right after the first return and cancel-of-last racing subscribe. Each subscriber must receive, strictly increasing and of its own signal only, every emission made entirely between its acknowledgement and its cancel request; its channel must close after cancel; on the raw connection no event may follow the unregister reply. Held on the interleavings observed.",
    "The harness requests a cancel only after the subscriber holds every emission made so far (events concurrent with subscribe/cancel are not demanded). One known finding (event of an in-progress emission after the unregister reply) is listed in KNOWN_FINDINGS.txt.", "DESIGN.md section 3 C13"),
+ "C14": ("bus", "exploration",
+   "offline linearizability checking (porcupine) of recorded get/set/update histories against a register model; change-event multiset monitor; quiescence detector; Go race detector",
+   "3-6 clients over 1-3 sessions plus the service itself issue reads, valid writes, validator-rejected writes, wrongly typed generic setProperty calls and service-side updates on a freshly generated property; call/return stamps from one logical clock at the client boundary; porcupine checks each history against a register model in which rejected or wrongly typed writes must fail and change nothing and reads return the current value without error; each continuously subscribed reader must receive exactly the accepted values, each once. Held on the histories observed.",
+   "Write values are unique, so reads identify the write they observed. A porcupine timeout is inconclusive. Event order relative to the linearization order is not demanded.", "DESIGN.md section 3 C14"),
+ "C15": ("bus", "exploration",
+   "runtime conformance against an executable sequential model (step-by-step) + offline linearizability checking (porcupine) of concurrent local+remote histories + wire-ordered event monitor; Go race detector (races in bus/directory are violations)",
+   "Sequential: PRNG (and, thorough, exhaustive to length 3 over a 15-symbol alphabet) operation sequences with symbolic ids applied remotely and compared step by step with the model, ids never reused across sequences. Concurrent: 3-5 remote clients plus 1-2 local goroutines (Server.NewService, Service.Terminate) checked with porcupine against the same model; serviceAdded/serviceRemoved observed on one raw connection must be exactly one per successful ready / unregister-of-ready, added before removed. Held on the sequences and histories observed.",
+   "Service.Terminate reports nothing, so the model lets it unregister-if-registered. A porcupine timeout is inconclusive.", "DESIGN.md section 3 C15"),
  "C16": ("bus", "exploration",
    "runtime monitor: per-object termination-hook counters, per-token execution counters, logical-clock stamps of removal acknowledgements; quiescence detector for subscriber notification; Go race detector",
    "Sequential then concurrent PRNG plans of Service.Add / call / SubscribeTick / Service.Remove / remote terminate() / repeated removal / calls after removal on a fresh Probe service. For every acknowledged removal: hook ran exactly once, calls and terminate started after the acknowledgement fail without reaching the object, subscribers acknowledged before the removal started get their channel closed, live objects keep answering. Held on the plans observed.",
@@ -58,6 +66,10 @@ CHECKS = {
    "runtime monitor: per-handler closer/queue-close counters with logical-clock stamps, monitor table updated atomically with MakeHandler; quiescence detector; child-crash detection; Go race detector (races in bus/net are violations)",
    "2-12 goroutines do PRNG-chosen MakeHandler / RemoveHandler / self-removing filters / peer frames / Close / peer close on one real endpoint over a harness stream. At quiescence every handler registered before shutdown has closer==1 then queue closed once, none is consulted after its closer, removing unknown or removed ids fails, ids are not handed out while held; panics (double close, send on closed channel) are child crashes; deadlocks are decided by process quiescence. Held on the interleavings observed.",
    "Closers and filters of the harness never call back into the endpoint (documented as forbidden).", "DESIGN.md section 3 C17"),
+ "C19": ("bus", "exploration",
+   "runtime monitor: counting listeners on the hosting servers (accepted/closed streams), per-request success and working-proxy check, child-crash detection, quiescence detector; Go race detector (races in bus/session are violations)",
+   "Fresh sessions shared by 4-32 goroutines released through a barrier, requesting Proxy / Object for services behind the same and different endpoints of two hosting servers. The process must not crash, every request must succeed with a working proxy, and at quiescence the session holds at most one (exactly one if used) connection per hosting server. Rounds in which a server accepted >= 2 connections prove that the concurrent-dial path ran. Held on the rounds observed.",
+   "Requests refused by the hosting server's load shedding ('consumer blocked': its 10-slot queue was full) are counted, not judged.", "DESIGN.md section 3 C19"),
  "C18": ("codec", "exploration",
    "runtime monitor: GenerateIDL/ParseIDL round-trip oracle over generated meta-object packages; panic/crash monitor over arbitrary text",
    "Generates packages of meta-objects (shared and nested structs, template-style names, tuples, all scalar kinds, m o X, uids up to 2^32-1), prints them with GenerateIDL, parses them back with ParseIDL and compares uids, names and signatures field by field; arbitrary text (random bytes, token soup, mutated valid IDL) must give a package or an error (panics recovered in-process, stack overflow seen as a child crash). Held on the packages and texts observed.",
